@@ -10,7 +10,7 @@ META = {
                  'RequestCache as a transition system at lock granularity: invariant over all interleavings, once-per-success, value provenance; the walkContext access '
                  'table REGENERATED from extractor/filesystem by a go/ast translator: every ticker/walker conflict is under statusMu) + exhaustive schedule enumeration '
                  'driving the REAL ComputePatches / RequestCache through gated callbacks and comparing with the Lean models + Go race detector runs',
-    'design_ref': 'DESIGN.md §5 C16',
+    'design_ref': 'DESIGN.md §4 (section of C16), §5 (defects), §7 (seeded changes)',
     'text': 'PARTIAL. Proved (all schedules, any number of tasks/callers/keys, kernel-checked): two complete delivery orders of ComputePatches collect the same multiset of '
             'patches, contain exactly the collected patches in their result whatever the version comparison does, and, when the version comparison is a strict weak order on the target versions present (all parsable under the order of one ecosystem — npm, Maven and PyPI tables are exercised — or all unparsable), return the same list, strictly increasing w.r.t. Patch.Compare (sorted, no duplicates); without that hypothesis duplicates can survive (decided witness); Patch.Compare satisfies '
             'SortFunc\'s precondition among patches with >=1 update; the worklist terminates when the introducible vulnerabilities are finite; RequestCache: single flight per key, '
